@@ -2,7 +2,7 @@
 # runs every claimed check (tier $1, default quick) against /repo and prints one summary line each
 cd "$(dirname "$0")/.." || exit 2
 tier=${1:-quick}
-for p in C01 C02 C03 C04 C05 C06 C07 C08 C09 C10 C12 C13 C14 C15 C16 C17 C18 C19 C20; do
+for p in C01 C02 C03 C04 C05 C06 C07 C08 C09 C10 C11 C12 C13 C14 C15 C16 C17 C18 C19 C20; do
   s=$(date +%s); checks/run.sh $p $tier > /tmp/runall_$p.log 2>&1; rc=$?
   echo "$p rc=$rc $(( $(date +%s) - s ))s :: $(grep -c '^VIOLATION' /tmp/runall_$p.log) violations, $(grep -c '^KNOWN-FINDING' /tmp/runall_$p.log) known :: $(tail -1 /tmp/runall_$p.log | cut -c1-120)"
 done
